@@ -10,6 +10,7 @@ use std::cell::Cell;
 
 thread_local! {
     static NOW_NANOS: Cell<u64> = Cell::new(0);
+    static AUTO_ADVANCE_NANOS: Cell<u64> = Cell::new(0);
 }
 
 /// Sets the current time of the mock clock (nanoseconds since an arbitrary origin).
@@ -17,9 +18,20 @@ pub fn set_now(nanos: u64) {
     NOW_NANOS.with(|n| n.set(nanos));
 }
 
+/// Makes every subsequent reading of the mock clock advance it by `nanos` afterwards, so that
+/// time passes *within* one call that reads the clock more than once (0 switches this off).
+pub fn set_auto_advance(nanos: u64) {
+    AUTO_ADVANCE_NANOS.with(|n| n.set(nanos));
+}
+
 /// Returns the current time of the mock clock in nanoseconds.
 pub fn now_nanos() -> u64 {
-    NOW_NANOS.with(|n| n.get())
+    let step = AUTO_ADVANCE_NANOS.with(|n| n.get());
+    NOW_NANOS.with(|n| {
+        let now = n.get();
+        n.set(now.saturating_add(step));
+        now
+    })
 }
 
 /// Drop-in replacement for `std::time::Instant` backed by the mock clock.
